@@ -63,6 +63,23 @@ def check_success_guard(ctx, case):
                 problems.add(f"{len(ocs)} outcomes are reported ({ocs})")
         ctx.check("R-SUCCESS-GUARD", f"[{_w(raising)}] addSuccess iff nothing raised", case.node, bool(runs) and not problems, "; ".join(sorted(problems)) or "no path of run() was followed to its end",
                   examined=len(runs), construct=f"{Q}::success-guard {_w(raising)}")
+    # several cleanups, not all of them failing: the run is unsuccessful whichever of them runs last
+    for order in (("fails first", ["fail", None]), ("fails last", [None, "fail"]), ("fails in the middle", [None, "error", None])):
+        label, kinds_ = order
+        script = {"setUp": [("call", "addCleanup", [cm.user(f"cleanup{i}")], []) for i in reversed(range(len(kinds_)))], "test": [], "tearDown": []}
+        for i, k in enumerate(kinds_):
+            script[f"cleanup{i}"] = [("raise", cm.raised(k, f"cleanup{i}"))] if k else []   # cleanup0 runs first
+        d, runs = cm.run_case(ctx, script)
+        problems = set()
+        for r in runs:
+            ocs = cm.outcomes(r)
+            if len(ocs) != 1 or ocs[0] not in cm.UNSUCCESSFUL:
+                problems.add(f"with {len(kinds_)} cleanups of which one {label}, the outcomes are {ocs}; expected exactly one, unsuccessful")
+            ran = [n for n in cm.names(r, ("user.",)) if n.startswith("user.cleanup")]
+            if ran != [f"user.cleanup{i}" for i in range(len(kinds_))]:
+                problems.add(f"the cleanups run are {ran}")
+        ctx.check("R-SUCCESS-GUARD", f"[{len(kinds_)} cleanups, one {label}] one unsuccessful outcome, no success", case.node, bool(runs) and not problems, "; ".join(sorted(problems)) or "no path",
+                  examined=len(runs), construct=f"{Q}::success-guard cleanups one {label}")
     ctx.floor("R-SUCCESS-GUARD", 12, "stage outcome combinations")
 
 
